@@ -129,6 +129,10 @@ def run_arm(repo, arm, gm, node_type, use_bias, auto_po2=False):
   kshape = (3, 3, 4, 8)
   layer = Mock("layer", {
       "name": "L", "use_bias": use_bias,
+      # geometry attributes of a Keras convolution / dense layer
+      "kernel_size": kshape[:2], "strides": (1, 1), "padding": "valid",
+      "dilation_rate": (1, 1), "depth_multiplier": 1, "filters": kshape[-1],
+      "units": kshape[-1], "groups": 1, "data_format": "channels_last",
       "__class__": Mock("class", {"__name__": node_type}),
       "get_quantizers": lambda pe, a, k: [qk_w, qk_b],
       "get_weights": lambda pe, a, k: [Mock("kernel", {"shape": kshape}),
@@ -1457,6 +1461,220 @@ def rule_graph_construction(rep, repo):
               instance=cfg)
 
 
+IF = "qkeras.qtools.interface"
+
+
+def rule_json_report(rep, repo):
+  """R10: the report users read (`QTools._output_dict`) states the types of
+  the data-type map.  `interface.map_to_json` is interpreted on a synthetic
+  map with one layer per report arm (dense with a fused accumulator, a merge
+  layer, batch normalisation, pooling, an activation) whose entries are real
+  qtools type objects of every kind with distinct widths.  Report format
+  (qtools documentation): fixed point -> bits, int_bits counted INCLUDING the
+  sign bit, is_signed; po2 -> bits, is_signed, max_value; binary -> bits,
+  int_bits, is_signed, values [-1,1] / [0,1]; ternary -> 2, 2, 1, [0,-1,1];
+  float -> bits; operators report their output type plus op_type; a leading
+  None of a shape becomes -1; a layer's operation count is copied."""
+  from .. import typearith as ta
+  im = repo.module(IF)
+  fn = im.functions.get("map_to_json")
+  if fn is None or "populate_quantizer" not in im.functions:
+    raise AnalysisError("anchor-missing interface.map_to_json / "
+                        "populate_quantizer")
+  unit = "%s::map_to_json" % im.relpath
+  rep.unit(unit)
+  loc = im.loc(fn)
+  pe = PE(repo)
+  counter = [0]
+
+  def q(kind):
+    o = ta.make_operand(pe, repo, kind, "q")
+    counter[0] += 1
+    k = counter[0]
+    if kind.startswith("fixed"):
+      o.attrs["bits"], o.attrs["int_bits"] = 8 + k, 2 + (k % 3)
+    elif kind.startswith("po2"):
+      o.attrs["bits"] = o.attrs["int_bits"] = 3 + (k % 4)
+      o.attrs["max_val_po2"] = F(2) ** (k % 3)
+    elif kind == "float":
+      o.attrs["bits"] = 16 if k % 2 else 32
+    return o
+
+  def want_q(o, shape=None, op=None):
+    a = o.attrs
+    d = {"quantizer_type": a["name"]}
+    if a.get("is_floating_point"):
+      d["bits"] = a["bits"]
+    elif a.get("is_po2"):
+      d.update(bits=a["bits"], is_signed=a["is_signed"],
+               max_value=a["max_val_po2"])
+    elif a["mode"] in (3, 4):
+      d.update(bits=a["bits"], int_bits=a["int_bits"],
+               is_signed=a["is_signed"],
+               values=[0, 1] if a["mode"] == 4 else [-1, 1])
+    elif a["mode"] == 2:
+      d.update(bits=2, int_bits=2, is_signed=1, values=[0, -1, 1])
+    elif a["mode"] == 0:
+      d.update(bits=a["bits"], int_bits=a["int_bits"] + a["is_signed"],
+               is_signed=a["is_signed"])
+    if shape is not None:
+      d["shape"] = tuple(-1 if (i == 0 and e is None) else e
+                         for i, e in enumerate(shape)) if isinstance(
+                             shape, tuple) else shape
+    if op is not None:
+      d["op_type"] = op
+    return d
+
+  def oper(kind, op):
+    out = q(kind)
+    return Mock("operator", {"output": out,
+                             "implemented_as": lambda pe_, a, k: op}), out
+
+  def layer(cls, name):
+    return Mock(name, {"name": name,
+                       "__class__": Mock("class", {"__name__": cls})})
+  lmap, want = {}, {}
+  # dense with every optional entry
+  mul, mul_o = oper("fixed_s", "mul")
+  acc, acc_o = oper("fixed_s", "add")
+  facc, facc_o = oper("fixed_s", "add")
+  e = {"input_quantizer_list": [q("fixed_u"), q("po2_s")],
+       "output_quantizer": q("fixed_s"), "output_shapes": (None, 7),
+       "weight_quantizer": q("po2_u"), "w_shapes": [3, 7],
+       "bias_quantizer": q("fixed_s"), "b_shapes": (7,),
+       "multiplier": mul, "accumulator": acc, "fused_accumulator": facc,
+       "bn_beta_quantizer": q("fixed_s"), "bn_mean_quantizer": q("fixed_s"),
+       "bn_inverse_quantizer": q("fixed_u"), "operation_count": 21}
+  lmap[layer("QDense", "dense")] = e
+  want["dense"] = {
+      "layer_type": "QDense",
+      "input_quantizer_list": [want_q(x) for x in e["input_quantizer_list"]],
+      "output_quantizer": want_q(e["output_quantizer"], (None, 7)),
+      "weight_quantizer": want_q(e["weight_quantizer"], [3, 7]),
+      "bias_quantizer": want_q(e["bias_quantizer"], (7,)),
+      "multiplier": want_q(mul_o, op="mul"),
+      "accumulator": want_q(acc_o, op="add"),
+      "bn_beta_quantizer": want_q(e["bn_beta_quantizer"]),
+      "bn_mean_quantizer": want_q(e["bn_mean_quantizer"]),
+      "bn_inverse_quantizer": want_q(e["bn_inverse_quantizer"]),
+      "fused_accumulator": want_q(facc_o, op="add"),
+      "operation_count": 21}
+  # a convolution without bias / fused entries, binary and ternary types
+  mul2, mul2_o = oper("fixed_s", "mux")
+  acc2, acc2_o = oper("fixed_s", "add")
+  e = {"input_quantizer_list": [q("ternary")],
+       "output_quantizer": q("float"), "output_shapes": (None, 5, 5, 2),
+       "weight_quantizer": q("binary"), "w_shapes": [3, 3, 1, 2],
+       "bias_quantizer": None, "b_shapes": None,
+       "multiplier": mul2, "accumulator": acc2, "operation_count": 450}
+  lmap[layer("QConv2D", "conv")] = e
+  want["conv"] = {
+      "layer_type": "QConv2D",
+      "input_quantizer_list": [want_q(e["input_quantizer_list"][0])],
+      "output_quantizer": want_q(e["output_quantizer"], (None, 5, 5, 2)),
+      "weight_quantizer": want_q(e["weight_quantizer"], [3, 3, 1, 2]),
+      "multiplier": want_q(mul2_o, op="mux"),
+      "accumulator": want_q(acc2_o, op="add"), "operation_count": 450}
+  # merge layer: the operator is reported under "<class>_quantizer"
+  mrg, mrg_o = oper("fixed_s", "add")
+  e = {"input_quantizer_list": [q("fixed_s"), q("fixed_s")],
+       "output_quantizer": q("fixed_s"), "output_shapes": (None, 4),
+       "multiplier": mrg, "operation_count": 4}
+  lmap[layer("Add", "add")] = e
+  want["add"] = {
+      "layer_type": "Add",
+      "input_quantizer_list": [want_q(x) for x in e["input_quantizer_list"]],
+      "output_quantizer": want_q(e["output_quantizer"], (None, 4)),
+      "Add_quantizer": want_q(mrg_o, op="add"), "operation_count": 4}
+  # pooling
+  psum, psum_o = oper("fixed_u", "add")
+  pavg, pavg_o = oper("fixed_u", "mul")
+  e = {"input_quantizer_list": [q("fixed_u")],
+       "output_quantizer": q("fixed_u"), "output_shapes": (None, 2, 2, 3),
+       "average_quantizer": q("binary01"), "pool_sum_accumulator": psum,
+       "pool_avg_multiplier": pavg, "operation_count": 48}
+  lmap[layer("QAveragePooling2D", "pool")] = e
+  want["pool"] = {
+      "layer_type": "QAveragePooling2D",
+      "input_quantizer_list": [want_q(e["input_quantizer_list"][0])],
+      "output_quantizer": want_q(e["output_quantizer"], (None, 2, 2, 3)),
+      "average_quantizer": want_q(e["average_quantizer"]),
+      "pool_sum_accumulator": want_q(psum_o, op="add"),
+      "pool_avg_multiplier": want_q(pavg_o, op="mul"),
+      "operation_count": 48}
+  # batch normalisation
+  idiv, idiv_o = oper("fixed_s", "shifter")
+  imul, imul_o = oper("fixed_s", "mul")
+  iacc, iacc_o = oper("fixed_s", "add")
+  e = {"input_quantizer_list": [q("fixed_s")],
+       "output_quantizer": q("fixed_s"), "output_shapes": (None, 3),
+       "gamma_quantizer": q("po2_s"), "beta_quantizer": q("fixed_s"),
+       "mean_quantizer": q("fixed_s"), "variance_quantizer": q("po2_u"),
+       "internal_divide_quantizer": idiv, "internal_multiplier": imul,
+       "internal_accumulator": iacc, "operation_count": 3}
+  lmap[layer("QBatchNormalization", "bn")] = e
+  want["bn"] = {
+      "layer_type": "QBatchNormalization",
+      "input_quantizer_list": [want_q(e["input_quantizer_list"][0])],
+      "output_quantizer": want_q(e["output_quantizer"], (None, 3)),
+      "gamma_quantizer": want_q(e["gamma_quantizer"]),
+      "beta_quantizer": want_q(e["beta_quantizer"]),
+      "mean_quantizer": want_q(e["mean_quantizer"]),
+      "variance_quantizer": want_q(e["variance_quantizer"]),
+      "internal_divide_quantizer": want_q(idiv_o, op="shifter"),
+      "internal_multiplier": want_q(imul_o, op="mul"),
+      "internal_accumulator": want_q(iacc_o, op="add"),
+      "operation_count": 3}
+  # activation: inputs and output only
+  e = {"input_quantizer_list": [q("fixed_s")],
+       "output_quantizer": q("fixed_u"), "output_shapes": (None, 3),
+       "operation_count": 3}
+  lmap[layer("QActivation", "act")] = e
+  want["act"] = {
+      "layer_type": "QActivation",
+      "input_quantizer_list": [want_q(e["input_quantizer_list"][0])],
+      "output_quantizer": want_q(e["output_quantizer"], (None, 3)),
+      "operation_count": 3}
+  sources = [q("fixed_s"), q("po2_u")]
+  want_sources = [want_q(x) for x in sources]
+  try:
+    out = pe.call(pe.lookup_global("map_to_json", im), [{
+        "source_quantizer_list": sources, "layer_data_type_map": lmap}], {})
+  except PyRaise as e_:
+    rep.fail("R10", unit, "raises", "map_to_json raises %s" % e_, loc=loc)
+    return
+
+  def plain(v):
+    if isinstance(v, dict):
+      return {k: plain(x) for k, x in v.items()}
+    if isinstance(v, (list, tuple)):
+      return [plain(x) for x in v]
+    if isinstance(v, F) and v.denominator == 1:
+      return int(v)
+    if isinstance(v, bool):
+      return int(v)
+    return v
+  got = plain(out)
+  rep.check(got.get("source_quantizers") == plain(want_sources), "R10", unit,
+            "report:source_quantizers",
+            "source quantizers reported as %r, the types are %r" % (
+                got.get("source_quantizers"), plain(want_sources)), loc=loc)
+  for name, w in sorted(want.items()):
+    g = got.get(name)
+    w = plain(w)
+    if not isinstance(g, dict):
+      rep.fail("R10", unit, "report-entry-missing:" + name,
+               "no report entry for layer %s" % name, loc=loc)
+      continue
+    for key in sorted(set(w) | set(g)):
+      rep.check(g.get(key, "<absent>") == w.get(key, "<absent>"), "R10",
+                unit, "report:%s.%s" % (w["layer_type"], key),
+                "layer %s: the report says %s = %r, the data-type map entry "
+                "is %r" % (name, key, g.get(key, "<absent>"),
+                           w.get(key, "<absent>")), loc=loc,
+                instance="%s.%s" % (name, key))
+
+
 def run(rep, repo, tier):
   rep.trusted.append("the factories' own arithmetic is C16/C17; here only "
                      "which values are wired where")
@@ -1479,6 +1697,8 @@ def run(rep, repo, tier):
   rep.require_instances("R8", 4)
   rule_graph_construction(rep, repo)
   rep.require_instances("R9", 10)
+  rule_json_report(rep, repo)
+  rep.require_instances("R10", 40)
   rep.require_instances("R6", 25)
   rep.require_instances("R4", 14)
   rep.require_instances("R3", 200)
